@@ -1359,6 +1359,9 @@ impl<T: Payload> World<T> {
         if maxchain >= 32 {
             self.stats.probe("scale_toplevel_chain_ge_32");
         }
+        if maxchain >= 66 {
+            self.stats.probe("scale_toplevel_chain_ge_66");
+        }
         if nl >= 200 {
             self.stats.probe("scale_live_ge_200");
         }
